@@ -280,6 +280,8 @@ COMBINATORS = {
     "core::option::Option::map_or": ("core::option::Option", "Some", "None", "map_or"),
     "core::result::Result::map_or": ("core::result::Result", "Ok", "Err", "map_or"),
     "core::option::Option::is_none_or": ("core::option::Option", "Some", "None", "pred_or_true"),
+    "core::result::Result::map_err": ("core::result::Result", "Err", "Ok", "map_pass"),
+    "core::result::Result::map": ("core::result::Result", "Ok", "Err", "map_pass"),
 }
 
 
@@ -473,13 +475,17 @@ def desugar_combinators(f, fns, rounds=6):
             other_rv = {"use": {"const": {"ty": "bool", "val": {"int": 1}}}}
         elif kind == "map_or":
             other_rv = {"use": copy.deepcopy(t["args"][1])}
+        elif kind == "map_pass":
+            # the variant the closure does not see passes through with its payload
+            other_rv = {"agg": "adt", "adt": adt, "variant": ov, "fields": ["0"],
+                        "ops": [{"move": {"l": x["l"], "p": [{"downcast": ov, "vi": odisc}, {"f": 0, "n": "0", "adt": adt, "v": ov}]}}]}
         else:
             other_rv = {"agg": "adt", "adt": adt, "variant": ov, "fields": [], "ops": []}
         B.append({"cleanup": False, "stmts": [{"k": "assign", "place": copy.deepcopy(dest), "rv": other_rv, "s": s_}], "term": {"k": "goto", "target": target, "s": s_}})
         # payload arm: call the closure (spliced below)
         proj = [{"downcast": pv, "vi": pdisc}, {"f": 0, "n": "0", "adt": adt, "v": pv}]
         some_stmts = [{"k": "assign", "place": {"l": v_loc, "p": []}, "rv": {"use": {"move": {"l": x["l"], "p": proj}}}, "s": s_}]
-        if kind == "map":
+        if kind in ("map", "map_pass"):
             r_loc = len(L)
             L.append(copy.deepcopy(clo["body"]["locals"][0]))
             b_wrap = nb + 3
@@ -490,7 +496,7 @@ def desugar_combinators(f, fns, rounds=6):
                  "args": [{"move": {"l": c["l"], "p": []}}, {"move": {"l": v_loc, "p": []}}], "dest": call_dest, "target": call_target, "unwind": t.get("unwind"), "s": s_}
         B.append({"cleanup": False, "stmts": some_stmts, "term": cterm})
         B.append({"cleanup": False, "stmts": [], "term": {"k": "unreachable", "s": s_}})
-        if kind == "map":
+        if kind in ("map", "map_pass"):
             B.append({"cleanup": False, "stmts": [{"k": "assign", "place": copy.deepcopy(dest), "rv": {"agg": "adt", "adt": adt, "variant": pv, "fields": ["0"], "ops": [{"move": {"l": r_loc, "p": []}}]}, "s": s_}],
                       "term": {"k": "goto", "target": target, "s": s_}})
         # the dispatching block
